@@ -1009,10 +1009,23 @@ class Agent(dbus.service.Object):
 
     def _starttls(self, sock, conv: Conversation, server_side: bool):
         self._dtls_prep[conv.key] = sock
+        made = []
+        try:
+            return self._starttls_prepared(sock, conv, server_side, made)
+        except Exception:
+            # A handshake that cannot be made leaves the conversation as it
+            # was: its later datagrams are not ignored and the socket made
+            # for it does not take them away from the listening socket
+            self._dtls_prep.pop(conv.key, None)
+            for item in made:
+                item.close()
+            raise
 
+    def _starttls_prepared(self, sock, conv: Conversation, server_side: bool, made: list):
         # Create a bound-on-both-sides socket which will preferentially
         # receive datagrams for this conversation
         conn = socket.socket(sock.family, sock.type, sock.proto)
+        made.append(conn)
         conn.setsockopt(socket.SOL_SOCKET, socket.SO_REUSEADDR, 1)
         conn.bind(sock.getsockname())
         conn.connect(conv.get_peer_addr())
